@@ -213,6 +213,12 @@ def rejecting_edges(g):
         for gd in gds:
             if alive[gd.label]:
                 continue
+            if gd.cond[0] in ('is', 'isnot', 'isnot_any') and len(gd.cond) > 2 and isinstance(gd.cond[2], tuple) \
+                    and not all(isinstance(a, tuple) and a and a[0] in ('variant', 'never') for a in alts(gd.cond[2])):
+                # a dispatch on the variant of an INPUT-derived value (`match element.signature { Unsigned => stop }`) is a reason of its
+                # own; only dispatches on values the code built itself (Continue/Break, a private "which path" enum) are plumbing
+                out.append(gd)
+                continue
             if gd.cond[0] in ('ok', 'err', 'is', 'isnot', 'isnot_any', 'discr_eq', 'const', 'int_not_in'):
                 continue
             if gd.cond[0] in ('true', 'false') and isinstance(gd.cond[1], tuple) and gd.cond[1][0] == 'phi':
